@@ -66,12 +66,16 @@ def flow_b(ctx, mine, n, salt, kinds=("edited",)):
         for j in range(4):
             start = cf.pick_start(rng, live)
             L = rng.choice([3 * k + 4, 40, 80, 120, 200])
+            if "long" in kinds and j == 0 and i % 8 == 0:
+                L = rng.choice([600, 900])              # many separated error sites: the candidate product is astronomically large
             w, v = [], start
             for _ in range(L):
                 a = rng.choice(live[v])
                 w.append(a)
                 v = (4 * v + a) % len(live)
             kind = kinds[(i + j) % len(kinds)]
+            if L >= 600:
+                kind = "long"
             if kind == "edited":
                 es = make_edits(rng, w, k, rng.choice([1, 1, 2, 3, 4]))
                 s = apply_edits(w, es)
@@ -79,6 +83,14 @@ def flow_b(ctx, mine, n, salt, kinds=("edited",)):
                 indel = True if not only_subs else rng.choice([True, False])
                 heap = 0
                 ww = w
+            elif kind == "long":
+                es, ww = [], []
+                s = list(w)
+                p = k + 2
+                while p < len(s) - 2 * k:
+                    s[p] = (s[p] + rng.randint(1, 3)) % 4
+                    p += rng.randint(10, 13)
+                indel, heap = rng.choice([True, False]), 1000
             elif kind == "clean":
                 es, s, indel, heap, ww = [], list(w), rng.choice([True, False]), rng.choice([1, 3, 1000]), []
             else:   # anywhere: errors in the first / last window, random strings, dense errors
